@@ -218,6 +218,46 @@ fn sweep<E: FieldElement>(name: &str, alpha: &[E], maxlen: usize, pair_len: usiz
             }
         }
     }
+    // ---- long operands of the (bi)linear helpers on a basis: mul(e_i, e_j) for all lengths <= 12,
+    // eval of every unit vector of length <= `long` at every alphabet point (x^i by repeated product)
+    for la in 1..=12usize {
+        for lb in 1..=12usize {
+            for i in 0..la {
+                for j in 0..lb {
+                    s.evals += 1;
+                    let mut a = vec![E::ZERO; la];
+                    a[i] = alpha[(i + 1) % alpha.len()] + E::ONE + E::ONE + E::ONE;
+                    let mut b = vec![E::ZERO; lb];
+                    b[j] = E::ONE;
+                    let key = format!("{name}/long/a={a:?}/b={b:?}");
+                    if let Some(got) = guard!("mul", key.clone(), polynom::mul(&a, &b)) {
+                        if got != unw(&r2::mul(&w(&a), &w(&b), &z)) {
+                            s.fail(format!("wrong:{name}:mul"), key.clone(), format!("{name} mul({a:?}, {b:?}) = {got:?}"));
+                        }
+                    }
+                }
+            }
+        }
+    }
+    for len in 1..=long {
+        for i in 0..len {
+            let mut p = vec![E::ZERO; len];
+            p[i] = E::ONE;
+            for x in alpha {
+                s.evals += 1;
+                let mut e = E::ONE;
+                for _ in 0..i {
+                    e *= *x;
+                }
+                let key = format!("{name}/long/p=e_{i} of {len}/x={x:?}");
+                if let Some(got) = guard!("eval", key.clone(), polynom::eval(&p, *x)) {
+                    if got != e {
+                        s.fail(format!("wrong:{name}:eval"), key, format!("{name} eval(e_{i} of length {len}, {x:?}) = {got:?}, x^{i} = {e:?}"));
+                    }
+                }
+            }
+        }
+    }
     // ---- roots: poly_from_roots, syn_div_roots_in_place ---------------------------------------------
     let root_lists = vectors(alpha, 3);
     for roots in &root_lists {
